@@ -32,6 +32,7 @@ static struct trec trecs[PMAXT];
 int pth_threads_created;
 int pth_threads_joined;
 int pth_create_fail;
+int pth_create_calls, pth_create_fail_at;	/* fail exactly the k-th call (1-based), 0: none */
 
 static void (*atfork_h[3][4])(void);
 static int atfork_n;
@@ -209,6 +210,10 @@ int pthread_create(pthread_t *th, const pthread_attr_t *attr, void *(*fn)(void *
 	sx_sched();
 	if (pth_create_fail)
 		return EAGAIN;
+	if (++pth_create_calls == pth_create_fail_at) {
+		sx_cover("env.pthread_create-fails");
+		return EAGAIN;
+	}
 	for (i = 0; i < PMAXT; i++)
 		if (!trecs[i].used)
 			break;
